@@ -63,10 +63,10 @@ struct Run
   bool ok = false;
   std::vector<VD> est, sd;  // [nvar][nt]
 };
-static Run runKrig(Ctx& C, const KData& d, const CaseId& c)
+static Run runKrig(Ctx& C, const KData& d, const CaseId& c, double ls = 1., double vs = 1.)
 {
   Run r;
-  KBuilt b(d, c.kmodel, c.kdrift, c.kneigh);
+  KBuilt b(d, c.kmodel, c.kdrift, c.kneigh, ls, vs);
   int err = kriging(b.dbin, b.dbout, b.model, b.neigh, b.calcul, true, true, false, b.ndiscs);
   C.eval();
   if (err) return r;
@@ -592,6 +592,52 @@ VF_PART(translation)
       // covariances are evaluated between points projected in absolute coordinates: relative error eps*|t|/range on the
       // distances -> factor (1 + |t|) on the tolerance is within "round-off proportional to the conditioning"
       compareRuns(C, c, Bt, r, B.run.est, zeros(c.nvar, nt), "coordinates translated by " + vstr(tv), "translate", kase, false, 1. + tnorm / 16.);
+    }
+    C.nontrivial(id);
+  });
+}
+
+// ------------------------------------------------------------------------------------------------- (h) common rescaling
+// All lengths (coordinates of data and targets, ranges, neighbourhood radius) multiplied by 2^-10, 2^-20, 2^10, 2^20 and / or
+// all values (data, known means; sills and measurement errors by the square) by 2^-8, 2^6: the estimates and stdev are
+// multiplied by the value factor and nothing else changes.  (A consequence of linearity and of the fact that the model is
+// parameterised by ranges; it is the "invariance under relabelling" of the unit of length.)  The conditioning is recomputed on
+// the rescaled system (polynomial drifts are badly scaled in small / large units).
+VF_PART(rescale)
+{
+  Menus M;
+  M.ndims = {2, 3}; M.nvars = {1, 2}; M.layouts = {1, 2, 3}; M.upats = {0, 2}; M.verrs = {0, 2};
+  M.models = {5, 7, 8, 10}; M.drifts = {1, 2, 3, 5}; M.neighs = {0, 2, 3, 6};
+  if (C.thorough()) { M.ndims = {1, 2, 3}; M.layouts = {0, 1, 2, 3, 4, 5}; M.upats = {0, 1, 2, 3}; M.models = {1, 3, 5, 6, 7, 8, 10}; M.drifts = {1, 2, 3, 4, 5}; M.neighs = {0, 1, 2, 3, 4, 5, 6}; }
+  static const double TR[7][2] = {{1. / 1024, 1}, {1. / 1048576, 1}, {1024, 1}, {1048576, 1}, {1, 1. / 256}, {1, 64}, {1. / 1024, 64}};
+  forBases(C, M, false, [&](uint64_t id, const CaseId& c, Base& B) {
+    const KData& d = B.d;
+    int nt = d.nt();
+    std::string kase = std::to_string(id);
+    countExcluded(C, B);
+    for (int q = 0; q < 7; q++)
+    {
+      double ls = TR[q][0], vs = TR[q][1];
+      KData ds = scaled(d, ls, vs);
+      KBuilt bs(ds, c.kmodel, c.kdrift, c.kneigh, ls, vs);
+      Reference refs(ds, bs.model, c.kdrift);
+      refs.meanScale = vs;
+      Base Bs = B;
+      for (int t = 0; t < nt; t++)
+      {
+        TInfo& I = Bs.T[t];
+        if (!I.usable) continue;
+        RefSystem S;
+        refs.buildSystem(I.nbgh, S);
+        if (S.singular || S.kappa > KAPPA_MAX) { I.usable = false; C.skip(); C.outcome("excluded:rescaled-system-ill-conditioned"); continue; }
+        I.kappa = std::max(I.kappa, S.kappa);
+      }
+      Run r = runKrig(C, ds, c, ls, vs);
+      if (!r.ok) { C.violation("rescale:kriging-refused", "kriging() failed on the rescaled problem; " + c.str(), kase); continue; }
+      for (auto& a : r.est) for (double& x : a) if (!FFFF(x)) x /= vs;
+      for (auto& a : r.sd) for (double& x : a) if (!FFFF(x)) x /= vs;
+      std::string tag = ls != 1. ? (ls < 1 ? "rescale:lengths-down" : "rescale:lengths-up") : (vs < 1 ? "rescale:values-down" : "rescale:values-up");
+      compareRuns(C, c, Bs, r, B.run.est, zeros(c.nvar, nt), "all lengths x " + fmt(ls) + ", all values x " + fmt(vs) + " (outputs divided by the value factor)", tag, kase, false);
     }
     C.nontrivial(id);
   });
